@@ -41,6 +41,17 @@ def run(chk, replay=None):
         chk.count()
         if not os.path.exists(o2) or open(o1, 'rb').read() != open(o2, 'rb').read():
             chk.violate('CLI: re-running on the output file changes it', {}, tags=['cli'])
+        # the same in a working directory where an earlier `--encrypt` run left its key file at the default path
+        import base64 as _b64
+        open(os.path.join(d, 'anonymongo.enc.key'), 'wb').write(_b64.b64encode(streams.KEY))
+        o3, o4 = os.path.join(d, 'o3'), os.path.join(d, 'o4')
+        subprocess.run([CLI, 'redact', f, '-o', o3, '-n', '-b', '-i'], stdin=subprocess.DEVNULL, capture_output=True, cwd=d)
+        subprocess.run([CLI, 'redact', o3, '-o', o4, '-n', '-b', '-i'], stdin=subprocess.DEVNULL, capture_output=True, cwd=d)
+        chk.count()
+        if not os.path.exists(o4) or open(o3, 'rb').read() != open(o4, 'rb').read():
+            chk.violate('CLI: re-running on the output file changes it (key file of an earlier run present in the working directory)', {}, tags=['cli', 'keyfile'])
+        elif open(o3, 'rb').read() != open(o1, 'rb').read():
+            chk.violate('CLI: placeholder-mode output depends on a key file lying in the working directory', {}, tags=['cli', 'keyfile'])
     chk.sample({'cfg': cfgs[2].describe(), 'input': lines[33].decode('utf-8', 'replace')[:400]})
     chk.assumptions += ["no namespace / field-name pseudonymisation, no encryption, replacement text not e-mail-shaped (as the property states)",
-                        "tree-level idempotence of the walkers is tied by this correspondence stream; the scalar step's idempotence and the class conditions on the constants are theorems"]
+                        "tree-, entry- and line-level idempotence are theorems (C19_walkers, C19_entry, C19_line_fixed_point); this stream ties the model to the code"]
